@@ -1993,7 +1993,9 @@ func (m *Matcher) branch(st state, n *If, c *cont, writer bool) {
 			continue
 		}
 		e := p.e
-		if writer && len(p.drops) > 0 {
+		if writer {
+			// also when an earlier test of the same condition already fixed the outcome (a hoisted flag
+			// tested twice: once for the version marker, once for the field)
 			m.checkOmission(p.e, fr, n, t == triTrue)
 		}
 		if len(p.drops) > 0 {
@@ -2031,15 +2033,31 @@ func (m *Matcher) checkOmission(e *env, fr *frame, n *If, then bool) {
 		conds = append(conds, n.Case.Vals...)
 	}
 	mentioned := map[string]bool{}
-	for _, c := range conds {
+	var mention func(c ast.Expr, depth int)
+	mention = func(c ast.Expr, depth int) {
 		ast.Inspect(c, func(x ast.Node) bool {
-			if sel, ok := x.(*ast.SelectorExpr); ok {
-				if s, ok := m.X.canonF(fr, sel, 0); ok && isFieldLabel(s) {
+			switch v := x.(type) {
+			case *ast.SelectorExpr:
+				if s, ok := m.X.canonF(fr, v, 0); ok && isFieldLabel(s) {
 					mentioned[s] = true
+				}
+			case *ast.Ident:
+				// a hoisted test (hasService := this.Service > 0) mentions what it was defined from
+				if obj := fr.ctx.Info.ObjectOf(v); obj != nil && isLocalVar(obj) && depth < 3 {
+					if b, ok := obj.Type().Underlying().(*types.Basic); ok && b.Info()&types.IsBoolean != 0 {
+						if d := fr.ctx.singleDef(obj); d != nil {
+							if _, isCall := ast.Unparen(d).(*ast.CallExpr); !isCall {
+								mention(d, depth+1)
+							}
+						}
+					}
 				}
 			}
 			return true
 		})
+	}
+	for _, c := range conds {
+		mention(c, 0)
 	}
 	// a condition that tests several fields of the omitted section for emptiness claims "the section
 	// is empty" by enumeration: then the enumeration has to cover every field of the section (one
@@ -2050,7 +2068,7 @@ func (m *Matcher) checkOmission(e *env, fr *frame, n *If, then bool) {
 			nSec++
 		}
 	}
-	if nSec >= 2 {
+	if nSec >= 2 || (m.X.StrictOmission && nSec >= 1) {
 		for f := range out {
 			if isFieldLabel(f) && !labelSetHas(in, f) {
 				mentioned[f] = true
